@@ -79,7 +79,7 @@ def run_shard(spec, rec):
                         rec.ev('int-extreme-present')
                 ls.hooks_after.append(hook)
             n = rng.randint(30, 140) if sizes else rng.randint(20, 60)
-            ok = ls.run(n, p_bad=0.06)
+            ok = ls.run(n, p_bad=0.06, p_alias=0.05)
             if h == 0 and kind == 'BTree' and ok:
                 rec.sample(dict(family=fam.name, kind=kind, impl=impl,
                                 sizes=sizes,
